@@ -446,6 +446,9 @@ func okParamList(nodes []ast.Node) (*token.Token, bool) {
 	log.Debugf("okParamList: %d: %#v", l, nodes)
 	for i, n := range nodes {
 		last := i == l-1
+		if n == nil { // a parameter that failed to parse (error already recorded)
+			return nil, false
+		}
 		t := n.Value()
 		if last && t.Type() == token.DOTDOT {
 			return t, true
@@ -468,8 +471,12 @@ func (p *Parser) parseLambdaMulti(left ast.Node, more ...ast.Node) ast.Node {
 	t, ok := okParamList(lambda.Parameters)
 	if !ok {
 		errLine, lineNum := p.ErrorLine(false)
+		what := "an invalid expression"
+		if t != nil {
+			what = t.Literal()
+		}
 		p.errors = append(p.errors, fmt.Sprintf("%d: lambda parameters must be identifiers, not %s\n%s",
-			lineNum, t.Literal(), errLine))
+			lineNum, what, errLine))
 		return nil
 	}
 	if t != nil {
